@@ -86,21 +86,39 @@ def scan_trusted(text):
     return seen, bad
 
 
-def generate(unit_name, repo):
+def generate(unit_name, repo, extra_consts=()):
     tpl = os.path.join(VERIF, 'units', unit_name, 'unit.vx')
     u = Unit(unit_name, repo, tpl)
+    u.extra_consts = list(extra_consts)
     u.process()
     return u
+
+
+def _find_consts(u, repo, names):
+    """A restructured function may use a module-level `const` that the unit's template does not cut.  A const is its own
+    specification, so cutting it as well is sound: look for `const NAME` in the files this unit already cuts from."""
+    import re as _re
+    out = []
+    for name in names:
+        for path in sorted({c['path'] for c in u.cuts}):
+            try:
+                txt = open(os.path.join(repo, path)).read()
+            except OSError:
+                continue
+            if _re.search(r'^(pub(\([a-z:]+\))?\s+)?const\s+%s\s*:' % _re.escape(name), txt, _re.M):
+                out.append((path, name))
+                break
+    return out
 
 
 DEFAULT_RLIMIT = 30   # Verus' default is 10; units that need more than ~1/3 of this are split (DESIGN.md section 7)
 
 
-def run_unit(unit_name, repo='/repo', rlimit=None, twins=True, extra_args=(), tag=''):
+def run_unit(unit_name, repo='/repo', rlimit=None, twins=True, extra_args=(), tag='', extra_consts=()):
     res = UnitResult(unit_name)
     t0 = time.time()
     try:
-        u = generate(unit_name, repo)
+        u = generate(unit_name, repo, extra_consts)
     except GenError as e:
         res.status, res.reason = 'undecided', str(e)
         return res
@@ -266,6 +284,15 @@ def run_unit(unit_name, repo='/repo', rlimit=None, twins=True, extra_args=(), ta
         if fnn is None or fnn not in failed_fns:
             hard.append(why + (' in %s' % fnn if fnn else ''))
     if hard:
+        missing = set()
+        for h in hard:
+            m = re.match(r'verus/rustc error: cannot find value `([A-Z][A-Z0-9_]*)` in this scope', h)
+            if m:
+                missing.add(m.group(1))
+        if missing and not extra_consts and all(h.startswith('verus/rustc error: cannot find value') for h in hard):
+            found = _find_consts(u, repo, sorted(missing))
+            if len(found) == len(missing):
+                return run_unit(unit_name, repo, rlimit, twins, extra_args, tag, tuple(found))
         res.status, res.reason = 'undecided', '; '.join(hard[:4])
         return res
     if js is None:
